@@ -173,7 +173,15 @@ Fixpoint reaches (E : list (string * string)) (fuel : nat) (a b : string) : bool
   | 0 => false
   | S n => existsb (fun e => String.eqb (fst e) a && reaches E n (snd e) b) E
   end.
-Definition acyclic (E : list (string * string)) : bool :=
+Definition edge_eqb (a b : string * string) : bool :=
+  String.eqb (fst a) (fst b) && String.eqb (snd a) (snd b).
+Fixpoint dedup_edges (E : list (string * string)) : list (string * string) :=
+  match E with
+  | [] => []
+  | e :: r => if existsb (edge_eqb e) r then dedup_edges r else e :: dedup_edges r
+  end.
+Definition acyclic (E0 : list (string * string)) : bool :=
+  let E := dedup_edges E0 in
   forallb (fun e => negb (reaches E (List.length E) (snd e) (fst e))) E.
 Fixpoint cb_ok (X : list string) (c : list instr) : bool :=
   match c with
@@ -185,7 +193,7 @@ Fixpoint cb_ok (X : list string) (c : list instr) : bool :=
   end.
 Definition lock_edges (P : program) : list (string * string) :=
   match inline_all fuel0 P with
-  | Some bodies => flat_map (order_edges []) bodies
+  | Some bodies => dedup_edges (flat_map (order_edges []) bodies)
   | None => []
   end.
 Definition lock_order_ok (P : program) : bool :=
